@@ -3,6 +3,8 @@ import Rare.Proofs.C11Float
 import Rare.Gen.C11
 import Rare.Proofs.C11Format
 import Rare.Proofs.C11Hf
+import Rare.Proofs.C11CaseC13
+import Rare.Proofs.C11R4
 /-!
 # C11 — scalar helper functions follow their documented semantics
 
@@ -823,6 +825,233 @@ example : (Format.sprintf (fun _ => true) (Format.lit "%5s|%-5s|") [Format.lit "
       some (Format.lit "\"a\\\"b\" 6869 %!d(MISSING) a\"b hi %!!(MISSING) %!(NOVERB)") ∧
     (Format.sprintf (fun _ => true) (Format.lit "100%% %s") [Format.lit "x", Format.lit "y"]).toOption =
       some (Format.lit "100% x%!(EXTRA string=y)") := by decide +kernel
+
+
+
+/-! ## len, like / prefix / suffix, isint, coalesce, switch, tab, path helpers (round 4) -/
+
+/-- `{len s}` is the number of BYTES of the value (not runes: `{len é}` is 2), in decimal. -/
+theorem len_spec (c : Ctx) (a : Arg) :
+    callHelper Strings.kfLen [a] c = .ok (itoa ((a.val c).length : Int)) :=
+  len_call c a
+
+/-- `{like s x}` / `{prefix s x}` / `{suffix s x}` return `s` itself when `x` occurs in `s` as a contiguous
+    block / at its start / at its end, and the empty string otherwise – byte-wise, for arbitrary bytes; an empty
+    `x` always matches. -/
+theorem like_prefix_suffix_spec (c : Ctx) (a b : Arg) :
+    callHelper (Strings.testHelper fun v x => Strings.containsB v x) [a, b] c =
+      .ok (if b.val c <:+: a.val c then a.val c else []) ∧
+    callHelper (Strings.testHelper fun v x => x.isPrefixOf v) [a, b] c =
+      .ok (if b.val c <+: a.val c then a.val c else []) ∧
+    callHelper (Strings.testHelper fun v x => x.isSuffixOf v) [a, b] c =
+      .ok (if b.val c <:+ a.val c then a.val c else []) ∧
+    ([] <:+: a.val c ∧ [] <+: a.val c ∧ [] <:+ a.val c) := by
+  refine ⟨?_, ?_, ?_, ⟨List.nil_infix, List.nil_prefix, List.nil_suffix⟩⟩
+  · rw [test_call]
+    by_cases h : b.val c <:+: a.val c
+    · rw [if_pos h, if_pos ((containsB_iff _ _).mpr h)]
+    · rw [if_neg h, if_neg (fun x => h ((containsB_iff _ _).mp x))]
+  · rw [test_call]
+    by_cases h : b.val c <+: a.val c
+    · rw [if_pos h, if_pos (List.isPrefixOf_iff_prefix.mpr h)]
+    · rw [if_neg h, if_neg (fun x => h (List.isPrefixOf_iff_prefix.mp x))]
+  · rw [test_call]
+    by_cases h : b.val c <:+ a.val c
+    · rw [if_pos h, if_pos (List.isSuffixOf_iff_suffix.mpr h)]
+    · rw [if_neg h, if_neg (fun x => h (List.isSuffixOf_iff_suffix.mp x))]
+
+example : Strings.containsB (ascii "hello world") (ascii "o w") = true ∧ Strings.containsB (ascii "abc") (ascii "ac") = false ∧
+    Strings.containsB [] [] = true := by decide +kernel
+
+/-- `{isint a}` is truthy exactly when `strconv.Atoi` accepts the value. -/
+theorem isint_spec (c : Ctx) (a : Arg) :
+    callHelper Arith.kfIsInt [a] c = .ok (if (atoi (a.val c)).isSome then TruthyVal else FalsyVal) :=
+  isint_call c a
+
+/-- The spellings at the edge of the two number grammars (a finite table, fully enumerated): `Atoi` takes an
+    optional sign and decimal digits within int64 – no blanks, point, exponent, base prefix, underscore or
+    non-ASCII digits; `ParseFloat` additionally takes points, exponents, hex floats, `_` between digits, `inf`,
+    `nan`.  So `{eq 1 1.0}` is falsy (strings), `{lte 1 1.0}` truthy (floats), `{sumi 1 1.0}` the marker. -/
+theorem number_spellings_table :
+    ([ascii "+1", ascii "-0", ascii "007", ascii "-9223372036854775808", ascii "9223372036854775807"].all
+        (fun s => (atoi s).isSome)) = true ∧
+    ([ascii "1.0", ascii " 1", ascii "1 ", ascii "0x1", ascii "1e0", ascii "1_000", [], ascii "+", ascii "-", ascii "--1",
+      ascii "9223372036854775808", ascii "-9223372036854775809", [0xD9, 0xA1]].all (fun s => (atoi s).isNone)) = true ∧
+    ([ascii "1.0", ascii "1e0", ascii "1_000", ascii "0x1p0", ascii "+1", ascii ".5", ascii "5.", ascii "Inf", ascii "nan"].all
+        (fun s => (Float.parseF s).isSome)) = true ∧
+    ([ascii " 1", ascii "1 ", ascii "0x1", ascii "1e", ascii "1__0", ascii "_1", ascii "1_", [], ascii ".", [0xD9, 0xA1]].all
+        (fun s => (Float.parseF s).isNone)) = true := by
+  decide +kernel
+
+/-- `{coalesce a₁ … aₙ}`: the first non-empty value (empty when there is none, also for no arguments). -/
+theorem coalesce_spec (c : Ctx) (as : List Arg) :
+    callHelper Logic.kfCoalesce as c = .ok (coalesceSpec (as.map (Arg.val c))) ∧
+    (∀ vs : List Bytes, coalesceSpec vs = (vs.find? (· ≠ [])).getD []) := by
+  refine ⟨coalesce_call c as, ?_⟩
+  intro vs
+  induction vs with
+  | nil => rfl
+  | cons v r ih =>
+    by_cases h : v = []
+    · simp [coalesceSpec, h, ih]
+    · simp [coalesceSpec, h]
+
+/-- `{switch c₁ v₁ c₂ v₂ … [default]}` (at least two arguments): the value paired with the first truthy
+    condition; with none truthy the trailing default if the argument count is odd, else the empty string.
+    Conditions after the first truthy one are not looked at. -/
+theorem switch_spec (c : Ctx) (as : List Arg) (h : 2 ≤ as.length) :
+    callHelper Logic.kfSwitch as c = .ok (switchSpec (as.map (Arg.val c))) ∧
+    (∀ cnd v rest, truthy cnd = true → switchSpec (cnd :: v :: rest) = v) ∧
+    (∀ cnd v rest, truthy cnd = false → switchSpec (cnd :: v :: rest) = switchSpec rest) ∧
+    (∀ d, switchSpec [d] = d) ∧ switchSpec [] = [] :=
+  ⟨switch_call c as h, fun _ _ _ ht => by simp [switchSpec, ht], fun _ _ _ ht => by simp [switchSpec, ht],
+   fun _ => rfl, rfl⟩
+
+example : switchSpec [ascii " ", ascii "a", ascii "x", ascii "b", ascii "dflt"] = ascii "b" ∧
+    switchSpec [[], ascii "a", ascii "\t", ascii "b", ascii "dflt"] = ascii "dflt" ∧
+    switchSpec [[], ascii "a", [], ascii "b"] = [] := by decide +kernel
+
+/-- `{tab a₁ … aₙ}` (and `{$ …}`, `{@ …}` with the NUL separator): the values joined by ONE separator byte
+    between neighbours, none at the ends; empty values keep their separators; no arguments give "". -/
+theorem tab_join_spec (c : Ctx) (as : List Arg) :
+    callHelper (Strings.kfJoin [9]) as c = .ok (joinSpec [9] (as.map (Arg.val c))) ∧
+    callHelper (Strings.kfJoin [0]) as c = .ok (joinSpec [0] (as.map (Arg.val c))) ∧
+    (∀ (d v : Bytes) (rest : List Bytes), joinSpec d (v :: rest) = v ++ rest.flatMap (d ++ ·)) :=
+  ⟨join_call [9] c as, join_call [0] c as, joinSpec_cons⟩
+
+example : joinSpec [9] [ascii "a", [], ascii "b"] = ascii "a\t\tb" := by decide +kernel
+
+/-- **Path helpers** (`filepath.Base`, `filepath.Ext` on `/`-separated paths; every byte string): `{basename p}` is
+    never empty and holds a `/` only when it is the root `/` itself; `{extname p}` is empty or a suffix `.xyz` of
+    `p` (from the LAST dot of the last element) whose tail has neither `.` nor `/`; the calls never panic. -/
+theorem path_spec (c : Ctx) (a : Arg) :
+    callHelper (Misc.pathHelper Misc.pathBase) [a] c = .ok (Misc.pathBase (a.val c)) ∧
+    callHelper (Misc.pathHelper Misc.pathDir) [a] c = .ok (Misc.pathDir (a.val c)) ∧
+    callHelper (Misc.pathHelper Misc.pathExt) [a] c = .ok (Misc.pathExt (a.val c)) ∧
+    (∀ p, Misc.pathBase p ≠ [] ∧ (47 ∈ Misc.pathBase p → Misc.pathBase p = [47])) ∧
+    (∀ p, Misc.pathExt p = [] ∨
+      ∃ pre k, p = pre ++ 46 :: k ∧ Misc.pathExt p = 46 :: k ∧ ∀ b ∈ k, b ≠ 46 ∧ b ≠ 47) := by
+  refine ⟨?_, ?_, ?_, pathBase_facts, pathExt_facts⟩ <;>
+    simp only [callHelper, Misc.pathHelper, List.map, ok, run_bind, Arg.run_stage] <;> rfl
+
+example : Misc.pathBase [] = ascii "." ∧ Misc.pathBase (ascii "//") = ascii "/" ∧ Misc.pathBase (ascii "a/b/") = ascii "b" ∧
+    Misc.pathExt (ascii ".bashrc") = ascii ".bashrc" ∧ Misc.pathExt (ascii "a.b/c") = [] ∧ Misc.pathExt (ascii "x.tar.gz") = ascii ".gz" ∧
+    Misc.pathExt (ascii "x.") = ascii "." ∧ Misc.pathDir (ascii "a/b/../c/x") = ascii "a/c" ∧ Misc.pathDir (ascii "/..") = ascii "/" ∧
+    Misc.pathDir [] = ascii "." ∧ Misc.pathDir (ascii "../../a") = ascii "../.." ∧ Misc.pathDir (ascii "a//b//") = ascii "a/b" := by
+  decide +kernel
+
+/-! ## more of /repo regenerated on every run (round 4): constants, delimiter set, dispatch table -/
+
+/-- Caps and separators the model relies on are the ones in /repo (`util.go`, `drawing.go`, `humanize`,
+    `stage.go`). -/
+theorem gen_constants :
+    Gen.C11.maxPrecision = Float.maxPrecision ∧ Gen.C11.maxRepeatBytes = Misc.maxRepeatBytes ∧
+    Gen.C11.hfDecimals = Float.hfDecimals ∧ Gen.C11.baseSeparator = 44 ∧ Gen.C11.decimalSeparator = 46 ∧
+    Gen.C11.arraySeparator = 0 := by decide +kernel
+
+/-- The bytes `selectField` compares with – its delimiters and the quote – are exactly the model's. -/
+theorem gen_select_chars : ∀ n : Nat, n < 256 →
+    ((Strings.isSelDelim (UInt8.ofNat n) || UInt8.ofNat n == 34) = Gen.C11.selectFieldChars.contains n) := by
+  decide +kernel
+
+/-- Every C11 helper name is bound in `stdlib.StandardFunctions` to the builder – and, for the operator
+    lambdas, the Go operator – the model mirrors (`lt` is `a < b`, `gte` is `a >= b`, `maxi` keeps `a` when
+    `a > b`, `divi` / `modi` reject `b == 0` …). -/
+theorem gen_dispatch :
+    (c11Dispatch.all fun p => dispatchLookup Gen.C11.dispatch p.1 == some p.2) = true := by decide +kernel
+
+/-! ## upper / lower: `strings.ToUpper` / `strings.ToLower` for every byte string (round 4)
+
+`Rare/Model/C11Case.lean` mirrors `strings.ToUpper` / `ToLower` completely: the ASCII scan and its fast paths,
+`strings.Map` over Go's UTF-8 decoding (an invalid byte is one U+FFFD and comes back as `EF BF BD`), and
+`unicode.ToUpper` / `ToLower` as the search over `unicode.CaseRanges` (simple case mapping, no `SpecialCase`).
+The direct op `case` compares it with the real `{upper {0}}` / `{lower {0}}` on every code point of every plane,
+raw surrogates, truncated and overlong sequences. -/
+
+/-- **The case table of the model is the toolchain's `unicode.CaseRanges`** (regenerated on every run). -/
+theorem case_table_is_go :
+    Gen.C11.caseRanges = Case.caseRanges ∧ Gen.C11.maxRune = Case.maxRune ∧ Gen.C11.upperLower = Case.upperLower := by
+  decide +kernel
+
+/-- **What a call computes**: `{upper a}` / `{lower a}` – constant, match group or key alike – is
+    `strings.ToUpper` / `ToLower` of the value; no argument value makes it panic. -/
+theorem upper_lower_call (c : Ctx) (a : Arg) :
+    callHelper (Case.caseHelperU Case.goToUpper) [a] c = .ok (Case.goToUpper (a.val c)) ∧
+    callHelper (Case.caseHelperU Case.goToLower) [a] c = .ok (Case.goToLower (a.val c)) := by
+  constructor <;> simp only [callHelper, Case.caseHelperU, List.map, ok, run_bind, Arg.run_stage] <;> rfl
+
+/-- **ASCII text**: the result is the byte-wise shift of `a–z` / `A–Z`; it has the same length, is ASCII again,
+    and the helpers are idempotent on it. -/
+theorem upper_lower_ascii (s : Bytes) (h : s.all (fun c => c < 128) = true) :
+    Case.goToUpper s = s.map Case.upperB ∧ Case.goToLower s = s.map Case.lowerB ∧
+    (Case.goToUpper s).length = s.length ∧ (Case.goToLower s).length = s.length ∧
+    Case.goToUpper (Case.goToUpper s) = Case.goToUpper s ∧ Case.goToLower (Case.goToLower s) = Case.goToLower s := by
+  have hu := Case.goToUpper_ascii s h
+  have hl := Case.goToLower_ascii s h
+  have au := Case.all_ascii_map Case.upperB Case.upperB_ascii s h
+  have al := Case.all_ascii_map Case.lowerB Case.lowerB_ascii s h
+  refine ⟨hu, hl, by rw [hu, List.length_map], by rw [hl, List.length_map], ?_, ?_⟩
+  · rw [hu, Case.goToUpper_ascii _ au, List.map_map]
+    congr 1; funext b; exact Case.upperB_idem b
+  · rw [hl, Case.goToLower_ascii _ al, List.map_map]
+    congr 1; funext b; exact Case.lowerB_idem b
+
+/-- On ASCII values the full model and the ASCII-only builders of the shared expression table (the ones other
+    properties' theorems are stated about) give the same answer. -/
+theorem case_ascii_agrees_shared (c : Ctx) (a : Arg) (h : (a.val c).all (fun b => b < 128) = true) :
+    callHelper (Strings.caseHelper Strings.upperB) [a] c = callHelper (Case.caseHelperU Case.goToUpper) [a] c ∧
+    callHelper (Strings.caseHelper Strings.lowerB) [a] c = callHelper (Case.caseHelperU Case.goToLower) [a] c := by
+  have h' : (a.val c).all (fun b => decide (b < 128)) = true := h
+  rw [(upper_lower_call c a).1, (upper_lower_call c a).2, Case.goToUpper_ascii _ h, Case.goToLower_ascii _ h]
+  constructor <;>
+    simp only [callHelper, Strings.caseHelper, List.map, ok, run_bind, Arg.run_stage, h', if_true] <;> rfl
+
+/-- **Where case mapping crosses the ASCII border** (all 1 114 112 code points and beyond): on ASCII runes
+    `unicode.ToUpper` / `ToLower` are the ASCII shift; a non-ASCII rune is mapped into ASCII exactly for
+    `ı` U+0131 ↦ `I`, `ſ` U+017F ↦ `S` (upper) and `İ` U+0130 ↦ `i`, `K` U+212A ↦ `k` (lower) – so `{upper}` of a
+    non-ASCII word can be an ASCII word (`{upper ſıx}` = `SIX`) only through these. -/
+theorem rune_case_ascii_border :
+    (∀ r, r < 128 → Case.toUpperR r = (if 97 ≤ r ∧ r ≤ 122 then r - 32 else r) ∧
+                    Case.toLowerR r = (if 65 ≤ r ∧ r ≤ 90 then r + 32 else r)) ∧
+    (∀ r, 128 ≤ r → (Case.toUpperR r < 128 ↔ r = 0x131 ∨ r = 0x17F)) ∧
+    (∀ r, 128 ≤ r → (Case.toLowerR r < 128 ↔ r = 0x130 ∨ r = 0x212A)) ∧
+    Case.toUpperR 0x131 = 0x49 ∧ Case.toUpperR 0x17F = 0x53 ∧ Case.toLowerR 0x130 = 0x69 ∧ Case.toLowerR 0x212A = 0x6B := by
+  refine ⟨Case.toRune_ascii, ?_, ?_, Case.toRune_exceptions⟩
+  · intro r hr
+    constructor
+    · intro hlt
+      apply Classical.byContradiction
+      intro hx
+      have := Case.toRune_nonascii false r hr (by unfold Case.intoAscii; simpa using hx)
+      unfold Case.toUpperR at hlt; omega
+    · rintro (h | h) <;> subst h
+      · rw [Case.toRune_exceptions.1]; decide
+      · rw [Case.toRune_exceptions.2.1]; decide
+  · intro r hr
+    constructor
+    · intro hlt
+      apply Classical.byContradiction
+      intro hx
+      have := Case.toRune_nonascii true r hr (by unfold Case.intoAscii; simpa using hx)
+      unfold Case.toLowerR at hlt; omega
+    · rintro (h | h) <;> subst h
+      · rw [Case.toRune_exceptions.2.2.1]; decide
+      · rw [Case.toRune_exceptions.2.2.2]; decide
+
+/-- **C11 × C13**: the sorters' model takes `unicode.ToLower` as a parameter and assumes the contract
+    `C13.RuneLower` (checked there by correspondence only).  The table-driven `toLowerR` – tied to Go's table by
+    `case_table_is_go` – satisfies it, and C13's `strings.ToLower` instantiated with it is C11's. -/
+theorem lower_meets_c13_contract :
+    Rare.C13.RuneLower Case.toLowerR ∧ ∀ s, Case.goToLower s = Rare.C13.goToLower Case.toLowerR s :=
+  ⟨Case.runeLower_toLowerR, Case.goToLower_eq_c13⟩
+
+/-- No `SpecialCase`: `ß` stays `ß`; `ſ` `ı` become ASCII (the string gets shorter); the title-case digraph `ǅ`
+    goes to `Ǆ` / `ǆ`; `Ⱥ` (2 bytes) lower-cases to `ⱥ` (3 bytes); an invalid byte comes back as U+FFFD. -/
+example : Case.goToUpper [0xC3, 0x9F] = [0xC3, 0x9F] ∧ Case.goToUpper [0xC5, 0xBF, 0xC4, 0xB1, 120] = [83, 73, 88] ∧
+    Case.goToUpper [0xC7, 0x85] = [0xC7, 0x84] ∧ Case.goToLower [0xC7, 0x85] = [0xC7, 0x86] ∧
+    Case.goToLower [0xC8, 0xBA] = [0xE2, 0xB1, 0xA5] ∧ Case.goToUpper [97, 0xFF] = [65, 0xEF, 0xBF, 0xBD] ∧
+    Case.goToLower [0xC4, 0xB0] = [105] ∧ Case.goToUpper [0xF0, 0x90, 0x90, 0xA8] = [0xF0, 0x90, 0x90, 0x80] := by
+  decide +kernel
 
 /-! ## hf: the sign of the rendering (KNOWN FINDING: `{hf -Inf}` prints `Inf`)
 
